@@ -1203,6 +1203,9 @@ func (e *scEngine) check(g *ssa.Function, sc scenario, depth int) (bool, string)
 		for _, sr := range findSliceRanges(g) {
 			vals, isLit := sliceLiteral(sr.X)
 			if !isLit {
+				vals, isLit = arrayLiteral(stripConv(sr.X))
+			}
+			if !isLit {
 				continue
 			}
 			has := false
@@ -1222,6 +1225,16 @@ func (e *scEngine) check(g *ssa.Function, sc scenario, depth int) (bool, string)
 				}
 			}
 			if early {
+				continue
+			}
+			// and every success return lies behind the loop (it cannot be by-passed)
+			bypass := false
+			for _, r := range returnsOf(g) {
+				if reach[r.Block()] && !e.isFailureReturn(g, r) && !sr.Header.Dominates(r.Block()) {
+					bypass = true
+				}
+			}
+			if bypass {
 				continue
 			}
 			c2 := &simCtx{e: e, f: g, sc: sc, depth: depth, litLoop: sr}
@@ -1550,6 +1563,26 @@ func (c *simCtx) mentionsSubject(v ssa.Value, depth int) bool {
 	switch x := resolve(v).(type) {
 	case *ssa.BinOp:
 		return c.mentionsSubject(x.X, depth+1) || c.mentionsSubject(x.Y, depth+1)
+	case *ssa.Alloc:
+		// a local aggregate: whatever was stored into it or its fields / elements
+		if x.Referrers() == nil {
+			return false
+		}
+		for _, ref := range *x.Referrers() {
+			switch y := ref.(type) {
+			case *ssa.Store:
+				if y.Addr == ssa.Value(x) && c.mentionsSubject(y.Val, depth+1) {
+					return true
+				}
+			case *ssa.FieldAddr, *ssa.IndexAddr:
+				for _, r2 := range *y.(ssa.Value).Referrers() {
+					if st, ok := r2.(*ssa.Store); ok && st.Addr == y.(ssa.Value) && c.mentionsSubject(st.Val, depth+1) {
+						return true
+					}
+				}
+			}
+		}
+		return false
 	case *ssa.UnOp:
 		return c.mentionsSubject(x.X, depth+1)
 	case *ssa.Convert:
